@@ -1342,7 +1342,7 @@ def catalog(n=6):
     ("ipv6-hbh-udp", [_eth(), _ip6(ext=[{"k": 0, "body": b"\x01\x04\0\0\0\0"}]), {"t": "udp"}, P]),
     ("ipv6-dst-tcp", [_eth(), _ip6(ext=[{"k": 60, "body": b"\x01\x04\0\0\0\0"}]), {"t": "tcp"}, P]),
     ("ipv6-rt-udp", [_eth(), _ip6(ext=[{"k": 43, "body": b"\x00\x00\0\0\0\0"}]), {"t": "udp"}, P]),
-    ("ipv6-frag-raw", [_eth(), _ip6(nh=17, ext=[{"k": 44, "body": b"\x00\x00\x08\x00\x00\x00\x01"}]), P]),
+    ("ipv6-frag-raw", [_eth(), _ip6(nh=253, ext=[{"k": 44, "body": b"\x00\x00\x08\x00\x00\x00\x01"}]), P]),
     ("ipv6-frag0-udp", [_eth(), _ip6(ext=[{"k": 44, "body": b"\x00\x00\x00\x00\x00\x00\x01"}]), {"t": "udp"}, P]),
     ("ipv6-icmp6-echo", [_eth(), _ip6(), {"t": "icmp6", "type": 128}, {"t": "echo6", "id": 1, "seq": 2}, P]),
     ("ipv6-icmp6-other", [_eth(), _ip6(), {"t": "icmp6", "type": 130}, P]),
@@ -1353,7 +1353,7 @@ def catalog(n=6):
     ("ipv6-icmp6-na", [_eth(), _ip6(), {"t": "icmp6", "type": 136}, {"t": "nd_na", "target": S2, "r": True, "s": True, "o": True, "opts": [{"k": "tll", "addr": M2}, {"k": "gen", "type": 14, "data": b"\x01\x02\x03\x04\x05\x06"}]}]),
     ("ipv6-icmp6-toobig", [_eth(), _ip6(), {"t": "icmp6", "type": 2}, {"t": "toobig", "mtu": 1280}, P]),
     ("ipv6-icmp6-timex", [_eth(), _ip6(), {"t": "icmp6", "type": 3}, {"t": "timex6"}, P]),
-    ("ipv6-icmp6-unreach", [_eth(), _ip6(), {"t": "icmp6", "type": 1}, {"t": "unreach6"}, P]),
+    ("ipv6-icmp6-unreach", [_eth(), _ip6(), {"t": "icmp6", "type": 1}, {"t": "unreach6"}, _raw(min(n, 38 + (n & 1)))]),   # 44+ bytes would be read as a quoted IPv6 datagram
     ("lldp", [_eth(dst=bytes.fromhex("0180c200000e")), {"t": "lldp", "tlvs": lldp_min + [{"k": "end"}]}]),
     ("lldp-all", [_eth(dst=bytes.fromhex("0180c200000e")), {"t": "lldp", "tlvs": lldp_min + [
         {"k": "portdesc", "v": b"eth0"}, {"k": "sysname", "v": b"sw1"}, {"k": "sysdesc", "v": b"switch"},
